@@ -89,18 +89,18 @@ Proof.
 Qed.
 
 Lemma sys_full_waveform_is_sum_lemma : forall sc st ts,
-  noisy (ant_cfg sc) = false -> fe_taps sc = [] -> wf_window ts ->
+  noisy (ant_cfg sc) = false -> fe_taps sc = [] -> fe_shift sc = None -> wf_window ts ->
   fst (s_full_waveform sc st ts) = st /\
   sig_eq (snd (s_full_waveform sc st ts))
          (mkSig ts (map (fun t => sum_at (signals (ant st)) t * fe_scale sc) ts)).
 Proof.
-  intros sc st ts Hn Htaps Hw. unfold s_full_waveform.
+  intros sc st ts Hn Htaps Hshift Hw. unfold s_full_waveform.
   rewrite fw_noiseless by exact Hn. cbn [fst snd]. split; [destruct st; reflexivity|].
   set (lt := lead_in_times sc ts). set (sigs := signals (ant st)).
   pose proof (lead_in_times_window sc ts Hw) as Hwl. fold lt in Hwl.
   destruct (full_waveform_is_sum_lemma (ant_cfg sc) sigs lt Hwl) as (Ht & Hv).
   unfold spec_wave in Hv. cbn [s_values] in Hv.
-  unfold sig_eq, with_times, front_end. rewrite Htaps. cbn [s_times s_values]. split; [reflexivity|].
+  unfold sig_eq, with_times, front_end. rewrite Htaps, Hshift. cbn [s_times s_values]. split; [reflexivity|].
   apply round_trip_scaled.
   - apply Hwl.
   - rewrite (Forall2_Qeq_length _ _ Hv), map_length. reflexivity.
@@ -111,11 +111,11 @@ Qed.
 
 (* each entry of AntennaSystem.signals is the front end applied to that antenna signal *)
 Lemma sys_signal_is_front_end_lemma : forall sc s,
-  fe_taps sc = [] ->
+  fe_taps sc = [] -> fe_shift sc = None ->
   wf_window (s_times s) -> length (s_times s) = length (s_values s) ->
   sig_eq (sys_signal_of sc s) (front_end sc s).
 Proof.
-  intros sc s Htaps Hw Hlen. unfold sys_signal_of, sig_eq, with_times, front_end. rewrite Htaps. cbn [s_times s_values].
+  intros sc s Htaps Hshift Hw Hlen. unfold sys_signal_of, sig_eq, with_times, front_end. rewrite Htaps, Hshift. cbn [s_times s_values].
   split; [reflexivity|].
   set (lt := lead_in_times sc (s_times s)).
   pose proof (lead_in_times_window sc _ Hw) as Hwl. fold lt in Hwl.
